@@ -12,10 +12,12 @@ def _posts(res):
 
 FAMS = [
     PoolMixFamily("C01", "poolmix-async-clean", 2500, 40000,
-                  {"exec": "asyncio", "p_srv_idle_close": 0.1, "p_caller_error": 0.2}, [], [_posts]),
+                  {"exec": "asyncio", "p_srv_idle_close": 0.1, "p_caller_error": 0.2,
+                   "resp_opts": {"p_early": 0.25}}, [], [_posts]),
     PoolMixFamily("C01", "poolmix-async-faulty", 2500, 40000,
                   {"exec": "asyncio", "faulty": True, "cancels": True,
-                   "p_srv_idle_close": 0.1, "p_h2_events": 0.3}, [], [_posts]),
+                   "p_srv_idle_close": 0.1, "p_h2_events": 0.3,
+                   "resp_opts": {"p_early": 0.25}}, [], [_posts]),
     PoolMixFamily("C01", "poolmix-threads", 600, 15000,
                   {"exec": "threads", "p_srv_idle_close": 0.1, "max_callers": 4, "protos": ["h1"]},
                   [], [_posts]),
